@@ -33,3 +33,39 @@ pub fn vx_iter_mut_find<'a, T, P: FnMut(&&'a mut T) -> bool>(v: &'a mut Vec<T>, 
             None => final(v)@ == old(v)@,
         },
 { unimplemented!() }
+
+// ---- str::split(char).map(f) ----
+/// index of the first occurrence of c in s
+pub open spec fn first_index_of(s: Seq<char>, c: char) -> Option<int>
+    decreases s.len()
+{
+    if s.len() == 0 { None } else if s[0] == c { Some(0int) } else { match first_index_of(s.drop_first(), c) { Some(i) => Some(i + 1), None => None } }
+}
+/// the pieces `str::split(c)` yields: cut at every occurrence of c; n occurrences give n + 1 pieces,
+/// empty pieces included (std's documented behaviour for a char pattern)
+pub open spec fn split_spec(s: Seq<char>, c: char) -> Seq<Seq<char>>
+    decreases s.len()
+{
+    match first_index_of(s, c) {
+        None => seq![s],
+        Some(i) => if 0 <= i < s.len() { seq![s.subrange(0, i)] + split_spec(s.subrange(i + 1, s.len() as int), c) } else { seq![s] },
+    }
+}
+/// the values a mapped split yields, in order
+pub struct VxMapped<R> { pub items: Vec<R> }
+impl<R> VxMapped<R> {
+    /// Iterator::enumerate, collected: (0, item0), (1, item1), ..
+    #[verifier::external_body]
+    pub fn enumerate(self) -> (r: Vec<(usize, R)>)
+        ensures r@.len() == self.items@.len(), forall|i: int| 0 <= i < r@.len() ==> (#[trigger] r@[i]).0 == i && r@[i].1 == self.items@[i]
+    { unimplemented!() }
+}
+/// `s.split(c).map(f)`: f applied to every piece, in order (evaluated eagerly here; for a pure f
+/// the lazy evaluation of the real iterator is not observable)
+#[verifier::external_body]
+pub fn vx_split_map<'a, R, F: FnMut(&'a str) -> R>(s: &'a str, c: char, f: F) -> (r: VxMapped<R>)
+    requires forall|p: &'a str| f.requires((p,)),
+    ensures
+        r.items@.len() == split_spec(s@, c).len(),
+        forall|i: int| 0 <= i < r.items@.len() ==> exists|p: &'a str| p@ == split_spec(s@, c)[i] && f.ensures((p,), #[trigger] r.items@[i]),
+{ unimplemented!() }
